@@ -97,6 +97,19 @@ func D3() []core.SeriesSpec {
 // D4: empty storage.
 func D4() []core.SeriesSpec { return nil }
 
+// D5: label names that sort before __name__ (upper case, a lone underscore) and after
+// every other label, non-ASCII values; values distinct everywhere.
+func D5() []core.SeriesSpec {
+	return []core.SeriesSpec{
+		Regular(`a{A="1",l="0",m="0"}`, 0, 30000, 50, 1, 1),
+		Regular(`a{L="x",l="0",m="1"}`, 0, 30000, 50, 10.5, 2),
+		Regular(`a{Z="é",_="u",l="1"}`, 0, 30000, 50, 100.25, 0.5),
+		Regular(`a{l="1",m="1",zz="last"}`, 0, 30000, 50, 7.125, 3),
+		Regular(`b{A="1",l="0"}`, 0, 30000, 50, 5, 1),
+		Regular(`b{Z="é",l="1",m="0"}`, 0, 30000, 50, 2.75, 3),
+	}
+}
+
 func Dataset(name string) []core.SeriesSpec {
 	switch name {
 	case "D1":
@@ -107,6 +120,8 @@ func Dataset(name string) []core.SeriesSpec {
 		return D3()
 	case "D4":
 		return D4()
+	case "D5":
+		return D5()
 	}
 	panic("unknown dataset " + name)
 }
